@@ -56,7 +56,7 @@ def run(ctx):
     execs = tot.get('completed', 0)
     parts.append(tr)
     ctx.sample_trace(tr, 14)
-    n = 6000 if thorough else 300
+    n = 3000 if thorough else 300
     for pct in (0, 3):
         tr = os.path.join(ctx.work, 'rand_p%d.ndjson' % pct)
         tot, _ = ctx.driver(exe, ['--out', tr, '--cap', 'mix', '--random', n, '--seed', ctx.seed + 7 * pct,
